@@ -316,137 +316,175 @@ func runOne(seed uint64, n int, out *bufio.Writer) error {
 		w1.Stop()
 		return fmt.Errorf("ExportWallet: %v", err)
 	}
-	mn1, _, err := w1.WM.GetMnemonic(id, pass)
-	if err != nil || mn1 != mnemonic {
-		w1.Stop()
-		return fmt.Errorf("GetMnemonic after create: %v (same=%v)", err, mn1 == mnemonic)
+	if mn1, _, err := w1.WM.GetMnemonic(id, pass); err != nil || mn1 != mnemonic {
+		fmt.Fprintf(out, "I\t%d\tcreate-reveal\t%s\t-\t-\trevealed-mnemonic-differs:%v:%s\t-\n", n, id, err, hx([]byte(mn1)))
 	}
 	w1.Stop()
 
-	// ---- instance 2: import the exported keystore into a fresh directory
-	w2, err := simx.Open(node, root+"/i2", pub)
-	if err != nil {
-		return err
-	}
-	if _, err := w2.WM.ImportWallet(js, pass+"y"); err == nil {
-		w2.Stop()
-		return fmt.Errorf("ImportWallet accepted a wrong passphrase")
-	}
-	if _, err := w2.WM.ImportWallet(js, pass+"\x00"); err == nil {
-		w2.Stop()
-		fmt.Fprintf(out, "I\t%d\timport-keystore\t-\t-\t-\timport-accepted-the-passphrase-followed-by-a-zero-byte\t-\n", n)
-		return nil
-	}
-	sum, err := w2.WM.ImportWallet(js, pass)
-	if err != nil {
-		w2.Stop()
-		return fmt.Errorf("ImportWallet: %v", err)
-	}
-	if !w2.WaitTasks(20 * time.Second) {
-		w2.Stop()
-		return fmt.Errorf("import did not finish")
-	}
-	id2 := sum.WalletID
-	cnt, l2, err := observe(w2, id2)
-	if err != nil {
-		w2.Stop()
-		return err
-	}
-	emitI(out, n, "import-keystore", id2, cnt, l2, signCheck(w2, r, pass, l2, rf))
-	if _, err := w2.WM.UseWallet(id2); err != nil {
-		w2.Stop()
-		return err
-	}
-	for k, m := 0, r.Intn(4); k < m; k++ {
-		if _, err := w2.WM.NewAddress(uint16(r.Intn(2))); err != nil {
-			w2.Stop()
-			return fmt.Errorf("NewAddress (instance 2): %v", err)
-		}
-	}
-	cnt, l2, _ = observe(w2, id2)
-	emitI(out, n, "more-addresses", id2, cnt, l2, signCheck(w2, r, pass, l2, rf))
-	w2.Stop()
-
-	// ---- restart
-	w2, err = simx.Open(node, root+"/i2", pub)
-	if err != nil {
-		return fmt.Errorf("restart: %v", err)
-	}
-	cnt, l2, err = observe(w2, id2)
-	if err != nil {
-		w2.Stop()
-		return err
-	}
-	emitI(out, n, "restart", id2, cnt, l2, signCheck(w2, r, pass, l2, rf))
-
-	// ---- public-passphrase change, then restart with the new one
-	newPub := "newPub" + randPass(r)
-	if len(newPub) > 40 {
-		newPub = newPub[:40]
-	}
-	err = mwdb.Update(w2.DB, func(tx mwdb.DBTransaction) error {
-		return w2.KS.ChangePubPassphrase(tx, []byte(pub), []byte(newPub), nil)
-	})
-	if err != nil {
-		w2.Stop()
-		return fmt.Errorf("ChangePubPassphrase: %v", err)
-	}
-	cnt, l2, _ = observe(w2, id2)
-	emitI(out, n, "pubpass-changed", id2, cnt, l2, signCheck(w2, r, pass, l2, rf))
-	w2.Stop()
-	if wbad, err := simx.Open(node, root+"/i2", pub); err == nil {
-		wbad.Stop()
-		return fmt.Errorf("the wallet still opens with the old public passphrase")
-	}
-	w2, err = simx.Open(node, root+"/i2", newPub)
-	if err != nil {
-		return fmt.Errorf("restart with the new public passphrase: %v", err)
-	}
-	cnt, l2, err = observe(w2, id2)
-	if err != nil {
-		w2.Stop()
-		return err
-	}
-	emitI(out, n, "restart-newpub", id2, cnt, l2, signCheck(w2, r, pass, l2, rf))
-	mn2, _, err := w2.WM.GetMnemonic(id2, pass)
-	if err != nil || mn2 != mnemonic {
-		w2.Stop()
-		return fmt.Errorf("GetMnemonic on the imported keystore: %v (same=%v)", err, mn2 == mnemonic)
-	}
-	w2.Stop()
-
-	// ---- instance 3: import the mnemonic (possibly re-spaced) with index hints
-	w3, err := simx.Open(node, root+"/i3", pub)
-	if err != nil {
-		return err
-	}
-	variant, vname := respace(r, mnemonic)
-	exHint := []uint32{0, uint32(len(l2)), uint32(len(l2)) + 2, 1}[r.Intn(4)]
-	inHint := []uint32{0, 0, 2}[r.Intn(3)]
-	sum3, err := w3.WM.ImportWalletWithMnemonic(&keystore.WalletParams{Version: keystore.KeystoreVersionLatest, Mnemonic: variant,
-		Remarks: remark, PrivatePassphrase: []byte(pass), ExternalIndex: exHint, InternalIndex: inHint, AddressGapLimit: sim.Cur.GapLimit})
-	if err != nil {
-		w3.Stop()
-		fmt.Fprintf(out, "I\t%d\timport-mnemonic:%s:%d:%d\t-\t-\t-\timport-failed:%s\t-\n", n, vname, exHint, inHint, strings.ReplaceAll(err.Error(), "\t", " "))
-	} else {
-		if !w3.WaitTasks(20 * time.Second) {
-			w3.Stop()
-			return fmt.Errorf("mnemonic import did not finish")
-		}
-		cnt, l3, err := observe(w3, sum3.WalletID)
+	var l2 []addrObs
+	var exHint, inHint uint32
+	variant, vname := mnemonic, "canonical"
+	stages := func() error {
+		// ---- instance 2: import the exported keystore into a fresh directory
+		w2, err := simx.Open(node, root+"/i2", pub)
 		if err != nil {
-			w3.Stop()
 			return err
 		}
-		sc := signCheck(w3, r, pass, l3, rf)
-		if mn3, _, err := w3.WM.GetMnemonic(sum3.WalletID, pass); err != nil || mn3 != mnemonic {
-			sc = fmt.Sprintf("revealed-mnemonic-differs:%v", err)
+		if _, err := w2.WM.ImportWallet(js, pass+"y"); err == nil {
+			w2.Stop()
+			return fmt.Errorf("ImportWallet accepted a wrong passphrase")
 		}
-		emitI(out, n, fmt.Sprintf("import-mnemonic:%s:%d:%d", vname, exHint, inHint), sum3.WalletID, cnt, l3, sc)
-		w3.Stop()
-	}
-	stats["variant_"+vname]++
+		if _, err := w2.WM.ImportWallet(js, pass+"\x00"); err == nil {
+			w2.Stop()
+			fmt.Fprintf(out, "I\t%d\timport-keystore\t-\t-\t-\timport-accepted-the-passphrase-followed-by-a-zero-byte\t-\n", n)
+			return nil
+		}
+		sum, err := w2.WM.ImportWallet(js, pass)
+		if err != nil {
+			w2.Stop()
+			return fmt.Errorf("ImportWallet: %v", err)
+		}
+		if !w2.WaitTasks(20 * time.Second) {
+			w2.Stop()
+			return fmt.Errorf("import did not finish")
+		}
+		id2 := sum.WalletID
+		cnt, l2, err = observe(w2, id2)
+		if err != nil {
+			w2.Stop()
+			return err
+		}
+		sc2 := signCheck(w2, r, pass, l2, rf)
+		if mnB, _, err := w2.WM.GetMnemonic(id2, pass); err != nil || mnB != mnemonic {
+			sc2 = fmt.Sprintf("revealed-mnemonic-differs:%v:%s", err, hx([]byte(mnB)))
+		}
+		emitI(out, n, "import-keystore", id2, cnt, l2, sc2)
+		// the export of the IMPORTED keystore, for the second hop below
+		js2, err := w2.WM.ExportWallet(id2, pass)
+		if err != nil {
+			w2.Stop()
+			return fmt.Errorf("ExportWallet of the imported keystore: %v", err)
+		}
+		if _, err := w2.WM.UseWallet(id2); err != nil {
+			w2.Stop()
+			return err
+		}
+		for k, m := 0, r.Intn(4); k < m; k++ {
+			if _, err := w2.WM.NewAddress(uint16(r.Intn(2))); err != nil {
+				w2.Stop()
+				return fmt.Errorf("NewAddress (instance 2): %v", err)
+			}
+		}
+		cnt, l2, _ = observe(w2, id2)
+		emitI(out, n, "more-addresses", id2, cnt, l2, signCheck(w2, r, pass, l2, rf))
+		w2.Stop()
 
+		// ---- restart
+		w2, err = simx.Open(node, root+"/i2", pub)
+		if err != nil {
+			return fmt.Errorf("restart: %v", err)
+		}
+		cnt, l2, err = observe(w2, id2)
+		if err != nil {
+			w2.Stop()
+			return err
+		}
+		emitI(out, n, "restart", id2, cnt, l2, signCheck(w2, r, pass, l2, rf))
+
+		// ---- public-passphrase change, then restart with the new one
+		newPub := "newPub" + randPass(r)
+		if len(newPub) > 40 {
+			newPub = newPub[:40]
+		}
+		err = mwdb.Update(w2.DB, func(tx mwdb.DBTransaction) error {
+			return w2.KS.ChangePubPassphrase(tx, []byte(pub), []byte(newPub), nil)
+		})
+		if err != nil {
+			w2.Stop()
+			return fmt.Errorf("ChangePubPassphrase: %v", err)
+		}
+		cnt, l2, _ = observe(w2, id2)
+		emitI(out, n, "pubpass-changed", id2, cnt, l2, signCheck(w2, r, pass, l2, rf))
+		w2.Stop()
+		if wbad, err := simx.Open(node, root+"/i2", pub); err == nil {
+			wbad.Stop()
+			return fmt.Errorf("the wallet still opens with the old public passphrase")
+		}
+		w2, err = simx.Open(node, root+"/i2", newPub)
+		if err != nil {
+			return fmt.Errorf("restart with the new public passphrase: %v", err)
+		}
+		cnt, l2, err = observe(w2, id2)
+		if err != nil {
+			w2.Stop()
+			return err
+		}
+		emitI(out, n, "restart-newpub", id2, cnt, l2, signCheck(w2, r, pass, l2, rf))
+		w2.Stop()
+
+		// ---- second hop: the export of the imported keystore into yet another fresh instance
+		w4, err := simx.Open(node, root+"/i4", pub)
+		if err != nil {
+			return err
+		}
+		sum4, err := w4.WM.ImportWallet(js2, pass)
+		if err != nil {
+			w4.Stop()
+			return fmt.Errorf("ImportWallet (second hop): %v", err)
+		}
+		if !w4.WaitTasks(20 * time.Second) {
+			w4.Stop()
+			return fmt.Errorf("second-hop import did not finish")
+		}
+		cnt4, l4, err := observe(w4, sum4.WalletID)
+		if err != nil {
+			w4.Stop()
+			return err
+		}
+		sc4 := signCheck(w4, r, pass, l4, rf)
+		if mn4, _, err := w4.WM.GetMnemonic(sum4.WalletID, pass); err != nil || mn4 != mnemonic {
+			sc4 = fmt.Sprintf("revealed-mnemonic-differs:%v:%s", err, hx([]byte(mn4)))
+		}
+		emitI(out, n, "import-keystore-2hop", sum4.WalletID, cnt4, l4, sc4)
+		w4.Stop()
+
+		// ---- instance 3: import the mnemonic (possibly re-spaced) with index hints
+		w3, err := simx.Open(node, root+"/i3", pub)
+		if err != nil {
+			return err
+		}
+		variant, vname = respace(r, mnemonic)
+		exHint = []uint32{0, uint32(len(l2)), uint32(len(l2)) + 2, 1}[r.Intn(4)]
+		inHint = []uint32{0, 0, 2}[r.Intn(3)]
+		sum3, err := w3.WM.ImportWalletWithMnemonic(&keystore.WalletParams{Version: keystore.KeystoreVersionLatest, Mnemonic: variant,
+			Remarks: remark, PrivatePassphrase: []byte(pass), ExternalIndex: exHint, InternalIndex: inHint, AddressGapLimit: sim.Cur.GapLimit})
+		if err != nil {
+			w3.Stop()
+			fmt.Fprintf(out, "I\t%d\timport-mnemonic:%s:%d:%d\t-\t-\t-\timport-failed:%s\t-\n", n, vname, exHint, inHint, strings.ReplaceAll(err.Error(), "\t", " "))
+		} else {
+			if !w3.WaitTasks(20 * time.Second) {
+				w3.Stop()
+				return fmt.Errorf("mnemonic import did not finish")
+			}
+			cnt, l3, err := observe(w3, sum3.WalletID)
+			if err != nil {
+				w3.Stop()
+				return err
+			}
+			sc := signCheck(w3, r, pass, l3, rf)
+			if mn3, _, err := w3.WM.GetMnemonic(sum3.WalletID, pass); err != nil || mn3 != mnemonic {
+				sc = fmt.Sprintf("revealed-mnemonic-differs:%v:%s", err, hx([]byte(mn3)))
+			}
+			emitI(out, n, fmt.Sprintf("import-mnemonic:%s:%d:%d", vname, exHint, inHint), sum3.WalletID, cnt, l3, sc)
+			w3.Stop()
+		}
+		stats["variant_"+vname]++
+
+		return nil
+	}
+	if err := stages(); err != nil {
+		fmt.Fprintf(out, "I\t%d\tstage-failed\t-\t-\t-\tstage-failed:%s\t-\n", n, strings.ReplaceAll(strings.ReplaceAll(err.Error(), "\t", " "), "\n", " "))
+	}
 	// ---- reference and model lines
 	want := map[[2]uint32]bool{}
 	for _, a := range l1 {
@@ -493,7 +531,6 @@ func runOne(seed uint64, n int, out *bufio.Writer) error {
 	stats[fmt.Sprintf("bits_%d", bits)]++
 	return nil
 }
-
 
 func main() {
 	count := flag.Int("n", 30, "number of cases")
